@@ -743,6 +743,21 @@ def segment_paths_used(fb):
                         if ef['kind'] == 'call' and ef['callee'].endswith(callee_suffix):
                             for s_ in path_constants(q, ef):
                                 used.setdefault(crate, set()).add(s_)
+        if DAEMON not in used:
+            # the daemon takes the path as a run-time value (a command-line option): its *default* is the absolute path
+            # the option parser is given -- a string constant handed to a `default_value`-like call in the binary crate
+            dm = daemon_main(fb)
+            found = set()
+            for b in (fb.bodies(dm.crate.name) if dm is not None else []):
+                for bb, t, fn in b.calls():
+                    if not fn or fn['path'].split('::')[-1] not in ('default_value', 'default_value_os', 'default_value_t', 'default_missing_value',
+                                                                     'unwrap_or', 'unwrap_or_else', 'get_or_insert'):
+                        continue
+                    for a in t.get('args') or []:
+                        if isinstance(a, dict) and a.get('k') == 'const' and isinstance(a.get('str'), str) and a['str'].startswith('/'):
+                            found.add(a['str'].rstrip('\0'))
+            if len(found) == 1:
+                used[DAEMON] = found
         return {k: (sorted(v)[0] if len(v) == 1 else 'several: %s' % sorted(v)) for k, v in used.items()}
     return _memo(fb, 'segment_paths_used', find)
 
